@@ -761,6 +761,8 @@ def expected_accept(c):
     """Spec: is the module valid as far as its enums go?  None = spec does not say."""
     if c.specs is None:
         return None
+    if c.side is not None and c.side.get("invalid") == "bad-case":
+        return False        # a malformed enum_case text is an error wherever it stands, used or not
     ok = True
     for s in c.specs:
         if any(x is None for x in s.cases):
